@@ -42,7 +42,8 @@ open PycModel.DeclSkel PycModel.DeclParse PycModel.TransUnit in
 prescribes.**  The fragment: any number of external declarations, each a file-scope declaration
 (specifiers: qualifiers, storage classes other than `typedef`, function specifiers, type keywords;
 init-declarators with pointers, qualifiers, array and `()` suffixes and assignment-expression
-initializers) or a function definition whose body is a block of such declarations and of the
+initializers) or a function definition - with `()` or with a prototype parameter list of named
+parameters, whose names are registered in the body's scope - whose body is a block of such declarations and of the
 statements of `wellformed_statements_are_accepted` (which nest to any depth); every construct of
 any size.  `parseCore` is the model of `CParser.parse` on the token stream (`parse = finish ∘
 parseCore ∘ strip`); the fuel bound `extsFuel l` is linear in the size of the program.
@@ -95,6 +96,53 @@ example :
       rcases hit with rfl | rfl
       · exact ⟨hint, hval, rfl, ⟨.name _, trivial, by intro e h; cases h; exact .id _ _⟩, by intro it h; cases h⟩
       · exact StmtSkel.WFS.retSome _ (.bin _ 8 _ _ _ _ (by decide) (by omega) (.id _ _) (.const _ _ _ _ (by decide)))
+  exact parse_translation_unit prog hw 200 (by decide)
+
+open PycModel.DeclSkel PycModel.DeclParse PycModel.TransUnit PycModel.Params in
+/-- non-vacuity with a parameter list, checked by the kernel:
+`int add ( int a , const int * b ) { return a + * b ; }` -/
+example :
+    (parseCore 200 ([("INT", "int"), ("ID", "add"), ("LPAREN", "("), ("INT", "int"), ("ID", "a"), ("COMMA", ","),
+        ("CONST", "const"), ("INT", "int"), ("TIMES", "*"), ("ID", "b"), ("RPAREN", ")"), ("LBRACE", "{"), ("RETURN", "return"),
+        ("ID", "a"), ("PLUS", "+"), ("TIMES", "*"), ("ID", "b"), ("SEMI", ";"), ("RBRACE", "}")].map (fun t => SEv.tok t.1 t.2) ++
+        [.eof])).1 =
+    .ast (mk .FileAST none [.list [
+      mk .FuncDef (tc 1) [
+        mk .Decl (tc 1) [.str "add", .list [], .list [], .list [], .list [],
+          mk .FuncDecl (tc 1) [
+            mk .ParamList (tc 4) [.list [
+              mk .Decl (tc 4) [.str "a", .list [], .list [], .list [], .list [],
+                mk .TypeDecl (tc 4) [.str "a", .list [], .none, mk .IdentifierType (tc 3) [.list [.str "int"]]], .none, .none],
+              mk .Decl (tc 8) [.str "b", .list [.str "const"], .list [], .list [], .list [],
+                mk .PtrDecl (tc 8) [.list [],
+                  mk .TypeDecl (tc 9) [.str "b", .list [.str "const"], .none, mk .IdentifierType (tc 7) [.list [.str "int"]]]],
+                .none, .none]]],
+            mk .TypeDecl (tc 1) [.str "add", .list [], .none, mk .IdentifierType (tc 0) [.list [.str "int"]]]],
+          .none, .none],
+        .none,
+        mk .Compound (tc 11) [.list [
+          mk .Return (tc 12) [mk .BinaryOp (tc 13) [.str "+", mk .ID (tc 13) [.str "a"],
+            mk .UnaryOp (tc 16) [.str "*", mk .ID (tc 16) [.str "b"]]]]]]]]]) := by
+  let prog : List Ext :=
+    [.fdefp { specs := [("INT", "int")],
+              fd := { x := "add", params := { first := { specs := [("INT", "int")], d := .name "a" },
+                                              more := [{ specs := [("CONST", "const"), ("INT", "int")], d := .ptr [[]] (.name "b") }] } },
+              body := [.stmt (.ret (some (.bin "PLUS" "+" (.id "a") (.pre "TIMES" "*" (.id "b")))))] }]
+  have hint : SpecToks false [("INT", "int")] := by simp [SpecToks, typeSpecSimple]
+  have hval : SpecVals [("INT", "int")] := by
+    intro t ht; simp only [List.mem_singleton] at ht; subst ht; exact ⟨by decide, by decide⟩
+  have hw : ∀ e ∈ prog, WFExt e := by
+    intro e he
+    simp only [prog, List.mem_singleton] at he
+    subst he
+    refine ⟨hint, hval, rfl, ⟨⟨hint, hval, rfl, .name _, trivial⟩, ?_⟩, ?_⟩
+    · intro p hp; simp only [List.mem_singleton] at hp; subst hp
+      refine ⟨by simp [SpecToks, quals3, typeSpecSimple, isTypeTok], ?_, rfl, .ptr _ _ (by simp) (by simp) (.name _) rfl, trivial⟩
+      intro t ht; simp only [List.mem_cons, List.not_mem_nil, or_false] at ht
+      rcases ht with rfl | rfl <;> exact ⟨by decide, by decide⟩
+    · intro it hit; simp only [List.mem_singleton] at hit; subst hit
+      exact StmtSkel.WFS.retSome _ (.bin _ 8 _ _ _ _ (by decide) (by omega) (.id _ _)
+        (.pre _ _ _ _ (by omega) (by decide) (.id _ _)))
   exact parse_translation_unit prog hw 200 (by decide)
 
 end PycModel.C01
